@@ -498,8 +498,11 @@ def interp_tol(o, h, vmax):
     """difference allowed between two resamplings of the same integration grid.  Ephem interpolates over the float MJD
     (resolution 0.63 us): every node is displaced by up to half an ulp along the orbit and the edge interval of the
     8-point Lagrange formula amplifies that (Lebesgue constant ~ 3-6), so the floor is a few mm in the centre and up to
-    ~15 mm observed at perigee speed in the edge interval: 6 ulp x speed, plus the Lagrange-8 remainder scale."""
-    return 6 * vmax * MJD_ULP_S + 0.05 * o["rp"] * (o["n_p"] * h) ** 8 + 1e-4
+    ~15 mm observed at perigee speed in the edge interval: 6 ulp x speed.  Added to it the Lagrange-8 remainder
+    h^8 f^(8)/8! * prod: for eccentric orbits the harmonics k n_p carry (k n_p)^8, observed up to 1.5 rp (n_p h)^8
+    (edge interval, which is where propagate() always interpolates): 5 rp (n_p h)^8 — below 1.3 mm for n_p h <= 0.05,
+    decimetres to metres for the coarsest steps in low eccentric orbits."""
+    return 6 * vmax * MJD_ULP_S + 5 * o["rp"] * (o["n_p"] * h) ** 8 + 1e-4
 
 
 def case_inp(o, h, T, **kw):
